@@ -198,17 +198,53 @@ def addColumn (t : Table) (col : Column) (mysql : Bool := true) : M Table :=
       let t' := { t with cols := t.cols.set id col }
       t'.positionStep col.name id
     else
-      let opts := pkSwap (c.cur.opts ++ col.cur.opts)
+      -- MySQL MODIFY COLUMN (a `modify` column carrying a MySQL type) replaces the options
+      let base := if col.action == .modify && mysql && col.cur.typ.isSome then [] else c.cur.opts
+      let opts := pkSwap (base ++ col.cur.opts)
       pure { t with cols := t.cols.set id { c with cur := { c.cur with opts := opts, typ := if mysql then col.cur.typ else c.cur.typ } } }
 
-/-- `removeColumn` -/
+/-- `forgetIndex(id)`: delete the index record and its map entry, shift the entries behind it -/
+def forgetIndex (t : Table) (id : Nat) : M Table := do
+  let i ← getIdx "forgetIndex" t.idxs id
+  pure { t with idxs := t.idxs.eraseIdx id,
+                idxIdx := (t.idxIdx.erase i.name).mapVals (fun v => if v > id then v - 1 else v) }
+
+def forgetForeignKey (t : Table) (id : Nat) : M Table := do
+  let f ← getIdx "forgetForeignKey" t.fks id
+  pure { t with fks := t.fks.eraseIdx id,
+                fkIdx := (t.fkIdx.erase f.name).mapVals (fun v => if v > id then v - 1 else v) }
+
+/-- the index clean-up loop of `removeColumn`, from the last index down to the first (`k` = number still to visit) -/
+def stripColFromIndexes (t : Table) (col : String) : Nat → M Table
+  | 0 => pure t
+  | k + 1 => do
+    let i ← getIdx "removeColumn" t.idxs k
+    let cols := i.cols.filter (· != col)
+    let t' ← (if cols.isEmpty && !i.cols.isEmpty then t.forgetIndex k
+              else pure { t with idxs := t.idxs.set k { i with cols := cols } } : M Table)
+    stripColFromIndexes t' col k
+
+def dropFksOnCol (t : Table) (col : String) : Nat → M Table
+  | 0 => pure t
+  | k + 1 => do
+    let f ← getIdx "removeColumn" t.fks k
+    let t' ← (if f.column == col then t.forgetForeignKey k else pure t : M Table)
+    dropFksOnCol t' col k
+
+/-- `removeColumn`: unknown ⇒ append a `remove` record; created in this history (`add`) ⇒ forget the column, strip it
+    from the indexes (dropping the ones left empty) and drop the foreign keys on it; otherwise ⇒ `remove` -/
 def removeColumn (t : Table) (name : String) : M Table :=
   match t.colIdx.get? name with
   | none => pure { t with cols := t.cols ++ [{ name := name, action := .remove }],
                           colIdx := t.colIdx.set name t.cols.length }
   | some id => do
     let c ← getIdx "removeColumn" t.cols id
-    pure { t with cols := t.cols.set id { c with action := if c.action == .add then .none else .remove } }
+    if c.action == .add then do
+      let t1 := { t with cols := t.cols.eraseIdx id,
+                         colIdx := (t.colIdx.erase name).mapVals (fun v => if v > id then v - 1 else v) }
+      let t2 ← stripColFromIndexes t1 name t1.idxs.length
+      dropFksOnCol t2 name t2.fks.length
+    else pure { t with cols := t.cols.set id { c with action := .remove } }
 
 def renameColumn (t : Table) (oldName newName : String) : M Table :=
   match t.colIdx.get? oldName with
@@ -230,9 +266,9 @@ def removeIndex (t : Table) (name : String) : M Table :=
   | none => pure { t with idxs := t.idxs ++ [{ name := name, action := .remove }],
                           idxIdx := t.idxIdx.set name t.idxs.length }
   | some id => do
-    let l ← modifyIdx "RemoveIndex" t.idxs id
-      (fun i => { i with action := if i.action == .add then .none else .remove })
-    pure { t with idxs := l }
+    let i ← getIdx "RemoveIndex" t.idxs id
+    if i.action == .add then t.forgetIndex id
+    else pure { t with idxs := t.idxs.set id { i with action := .remove } }
 
 def renameIndex (t : Table) (oldName newName : String) : M Table :=
   match t.idxIdx.get? oldName with
@@ -259,9 +295,9 @@ def removeForeignKey (t : Table) (name : String) : M Table :=
   | none => pure { t with fks := t.fks ++ [{ name := name, action := .remove }],
                           fkIdx := t.fkIdx.set name t.fks.length }
   | some id => do
-    let l ← modifyIdx "RemoveForeignKey" t.fks id
-      (fun f => { f with action := if f.action == .add then .none else .remove })
-    pure { t with fks := l }
+    let f ← getIdx "RemoveForeignKey" t.fks id
+    if f.action == .add then t.forgetForeignKey id
+    else pure { t with fks := t.fks.set id { f with action := .remove } }
 
 end Table
 
@@ -280,9 +316,12 @@ def removeTable (m : Migration) (name : String) : M Migration :=
   match m.tblIdx.get? name with
   | none => pure { m with tables := m.tables ++ [Table.new name .remove], tblIdx := m.tblIdx.set name m.tables.length }
   | some id => do
-    let l ← modifyIdx "RemoveTable" m.tables id
-      (fun t => { t with action := if t.action == .add then .none else .remove })
-    pure { m with tables := l }
+    let t ← getIdx "RemoveTable" m.tables id
+    if t.action == .add then
+      -- created and dropped within the same history: forget the table
+      pure { m with tables := m.tables.eraseIdx id,
+                    tblIdx := (m.tblIdx.erase name).mapVals (fun v => if v > id then v - 1 else v) }
+    else pure { m with tables := m.tables.set id { t with action := .remove } }
 
 def renameTable (m : Migration) (oldName newName : String) : M Migration :=
   match m.tblIdx.get? oldName with
